@@ -370,8 +370,10 @@ class NF:
         if isinstance(e, ast.Call):
             return self.call(e, env)
         if isinstance(e, ast.IfExp):
-            c = self.ev(e.test, env)
+            c = self._optional_truth(self.ev(e.test, env), env)
             a, b = self.ev(e.body, env), self.ev(e.orelse, env)
+            if c[0] == "op" and c[1] == "Not" and len(c[2]) == 1 and c[2][0][0] != "const":
+                c, a, b = c[2][0], b, a
             if c[0] == "const":
                 return a if c[1] else b
             if a == b:
@@ -1005,6 +1007,22 @@ class NF:
         env2 = Env(cls.module, cls, vars, types, env.depth + 1, env.vdepth)
         return self.body(m, env2)
 
+    def _optional_truth(self, c, env):
+        """`x is not None` on an optional x whose class (a class of the program without __bool__ / __len__) is always truthy is the
+        truthiness test `x`;  `x is None` its negation"""
+        if c[0] == "op" and c[1] in ("And", "Or", "Not", "not") and all(isinstance(x, tuple) for x in c[2]):
+            return ("op", c[1], tuple(self._optional_truth(x, env) for x in c[2]))
+        if c[0] == "op" and c[1] in ("cmp:IsNot", "cmp:Is") and len(c[2]) == 2 and c[2][1] == ("const", None) and c[2][0][0] in ("attr", "sym"):
+            try:
+                ty = self.type_of(c[2][0], env)
+            except Exception:
+                ty = None
+            if isinstance(ty, Class) and not any(n_ in k.methods for k in ty.mro for n_ in ("__bool__", "__len__")) \
+                    and not any(b_ in ("int", "str", "float", "bytes", "list", "dict", "tuple", "set", "Enum", "IntEnum", "Mapping", "MutableMapping", "Sequence")
+                                for k in ty.mro for b_ in k.base_names()):
+                return c[2][0] if c[1] == "cmp:IsNot" else ("op", "Not", (c[2][0],))
+        return c
+
     def mk_ite(self, c, a, b):
         if c[0] == "const":
             return a if c[1] else b
@@ -1064,7 +1082,7 @@ class NF:
                 env.vars[s.name] = ("closure", id(s))
                 continue
             if isinstance(s, ast.If):
-                c = self.ev(s.test, env)
+                c = self._optional_truth(self.ev(s.test, env), env)
                 e1, e2 = env.child(), env.child()
                 r1 = self._run(m, list(s.body), e1)
                 r2 = self._run(m, list(s.orelse), e2)
@@ -1406,6 +1424,8 @@ def _assume(t, c, val: bool):
 def ite_normal(t, depth: int = 0):
     """decision-tree normal form: conditional terms are split on their atomic conditions in order of first occurrence, so
     `f(x if c else y)`, `f(x) if c else f(y)` and the guard-clause spelling of either coincide"""
+    if depth == 0:
+        t = _split_compound(t)
     c = _first_cond(t)
     if c is None or depth > 10:
         return t
@@ -1414,6 +1434,26 @@ def ite_normal(t, depth: int = 0):
     a = ite_normal(_assume(t, c, True), depth + 1)
     b = ite_normal(_assume(t, c, False), depth + 1)
     return a if a == b else ("ite", c, a, b)
+
+
+def _split_compound(t):
+    """conditions built with and / or / not are decided operand by operand, in evaluation order:
+    (X if a or b else Y) = (X if a else (X if b else Y)),  (X if a and b else Y) = ((X if b else Y) if a else Y),  (X if not a else Y) = (Y if a else X)"""
+    if not isinstance(t, tuple) or not t:
+        return t
+    t = tuple(_split_compound(x) if isinstance(x, tuple) else x for x in t)
+    if t[0] == "ite" and isinstance(t[1], tuple) and t[1] and t[1][0] == "op" and t[1][1] in ("Or", "And", "Not", "not") and t[1][2]:
+        c, a, b = t[1], t[2], t[3]
+        ops_ = list(c[2])
+        if c[1] in ("Not", "not") and len(ops_) == 1:
+            return _split_compound(("ite", ops_[0], b, a))
+        if c[1] == "Or":
+            rest = ("ite", ("op", "Or", tuple(ops_[1:])), a, b) if len(ops_) > 2 else ("ite", ops_[1], a, b) if len(ops_) == 2 else b
+            return _split_compound(("ite", ops_[0], a, rest))
+        if c[1] == "And":
+            rest = ("ite", ("op", "And", tuple(ops_[1:])), a, b) if len(ops_) > 2 else ("ite", ops_[1], a, b) if len(ops_) == 2 else a
+            return _split_compound(("ite", ops_[0], rest, b))
+    return t
 
 
 def _assume_const(t, c):
